@@ -8,6 +8,7 @@ import (
 	"strconv"
 	"strings"
 	"sync"
+	"sync/atomic"
 	"time"
 
 	"go.uber.org/zap"
@@ -80,7 +81,8 @@ type TCPServerTransport struct {
 	selfLearnRoute       *SelfLearnRoute
 	msgHandler           MessageHandler
 	connAcceptedListener ConnectionAcceptedListener
-	exit                 bool
+	// 0: running, 1: the receive goroutine exited (set by that goroutine, read by others)
+	exit                 int32
 }
 
 type ClientTransport interface {
@@ -485,7 +487,7 @@ func NewTCPServerTransport(addr string,
 		receivedSupport:      receivedSupport,
 		connAcceptedListener: connAcceptedListener,
 		selfLearnRoute:       selfLearnRoute,
-		exit:                 false,
+		exit:                 0,
 	}
 }
 
@@ -503,7 +505,7 @@ func NewTCPServerTransportWithConn(conn net.Conn,
 			receivedSupport:      receivedSupport,
 			connAcceptedListener: nil,
 			selfLearnRoute:       selfLearnRoute,
-			exit:                 false,
+			exit:                 0,
 		}
 	}
 	return nil
@@ -561,7 +563,7 @@ func (t *TCPServerTransport) receiveMessage(conn net.Conn) {
 		t.msgHandler.HandleRawMessage(rawMsg)
 	}
 	if t.conn != nil {
-		t.exit = true
+		atomic.StoreInt32(&t.exit, 1)
 	}
 }
 
@@ -582,6 +584,6 @@ func (t *TCPServerTransport) GetPort() int {
 }
 
 func (u *TCPServerTransport) IsExit() bool {
-	return u.conn != nil && u.exit
+	return u.conn != nil && atomic.LoadInt32(&u.exit) != 0
 }
 
